@@ -281,10 +281,11 @@ use crate::vspec_dwp::*;''')
     ]
     VARS = {'DebugAbbrev': 'abbrev', 'DebugInfo': 'info', 'DebugLine': 'line', 'DebugLoc': 'loc', 'DebugLocLists': 'loclists',
             'DebugMacinfo': 'macinfo', 'DebugMacro': 'macro', 'DebugStrOffsets': 'str_offsets', 'DebugRngLists': 'rnglists', 'DebugTypes': 'types'}
+    TAGOF = {k[1]: k[0] for k in KINDS}
     inv = ('invariant_except_break verif_sections.wf(), verif_sections.kinds() == s0.kinds().skip(gi), '
            'adv(s0.v_offsets(), verif_sections.v_offsets(), (4 * gi) as nat), adv(s0.v_sizes(), verif_sections.v_sizes(), (4 * gi) as nat),\n'
            'invariant 0 <= gi <= s0.kinds().len(), s0 == sections,\n'
-           + ''.join(f'  ({v}_offset as nat, {v}_size as nat) == contrib(s0.kinds(), s0.v_offsets(), s0.v_sizes(), IndexSectionId::{kd}, gi),\n' for kd, v in VARS.items())
+           + ''.join(f'  ({v}_offset as nat, {v}_size as nat) == contrib(s0.kinds(), s0.v_offsets(), s0.v_sizes(), IndexSectionId::{kd}, gi), // [C17:pkg-section-{TAGOF[kd]}]\n' for kd, v in VARS.items())
            + 'ensures gi == s0.kinds().len(),\ndecreases verif_sections.v_offsets().len')
     im.splice('sections', ret='res', requires=['[C17:section-iter-wf] sections.wf()'], ensures=ens, canary=True,
               loops={0: inv},
